@@ -88,6 +88,18 @@ CLAIMS["C05"] = (
     "chunk' as the property allows. Numeric high-water marks are not decided.",
 )
 
+CLAIMS["C02"] = (
+    "4/C02",
+    "field effect sets on h1::Codec + dominance + assumption-conditioned reachability (per status) + error-propagation discipline",
+    "Decides on every path: which Codec fields are per-request state shared across decode-ahead and whether a restore "
+    "dominates each response-head encode (violated today: known finding, confirmed with a pipelined GET+HEAD); an "
+    "empty data chunk cannot reach an end-of-body-on-empty transfer encoder unguarded (found and fixed); status/HEAD "
+    "framing tables of encode_headers and MessageEncoder::encode, per status under the assumption status == s (204/1xx "
+    "found and fixed; 304 is pinned by an existing test and carried as a known finding); short sized bodies and body "
+    "errors never end cleanly; exactly one head encoder site and its two callers; 100 Continue only after the expect "
+    "future resolved Ok. Byte-for-byte body equality and write-buffer ordering are not decided.",
+)
+
 NOT_YET = "check not built yet in this round (planned per DESIGN.md section 4); not claimed until it exists"
 
 NOT_APPLICABLE = {}
